@@ -65,25 +65,60 @@ def first_diff(a, b):
     return (a, b)
 
 
-def classify(text, a, b):
-    d = first_diff(a, b) if a is not None and b is not None else None
-    if d is None:
-        import re
-        if re.search(r"(\w+):(\w+)=[^>]*\b\2=|\b(\w+)=[^>]*\w+:\3=", text):
-            return "dom-attribute-local-name-collision"
+def _local(n):
+    """minidom: Attr.localName of an attribute created without a namespace"""
+    return n.split(":", 1)[-1]
+
+
+def dom_defects(t, doctype, attrs):
+    """what the two recorded minidom defects make of a tree built by the etree builder:
+    doctype: DocumentType keeps only the local part of a qualified name and turns '' into None;
+    attrs:   un-namespaced attributes of one element that share the part after the first ':' collide in minidom's
+             _attrsNS[(None, localName)]: each one set later removes the earlier one (order of the survivors is kept)"""
+    if t[0] in ("doc", "frag"):
+        return (t[0], [dom_defects(k, doctype, attrs) for k in t[1]])
+    if t[0] == "doctype" and doctype:
+        name = t[1]
+        if name and ":" in name:
+            name = name.split(":", 1)[1]
+        return ("doctype", name if name else None, t[2], t[3])
+    if t[0] == "elem":
+        a = t[3]
+        if attrs:
+            a = [(ns, n, v) for i, (ns, n, v) in enumerate(a)
+                 if not (ns is None and any(ns2 is None and _local(n2) == _local(n) for ns2, n2, _ in a[i + 1:]))]
+        return ("elem", t[1], t[2], a, [dom_defects(k, doctype, attrs) for k in t[4]])
+    return t
+
+
+def classify(dom, etree):
+    """dom / etree: the two abstract trees (same shape: both documents or both fragments).  A recorded class is returned only
+    when applying that recorded defect (and nothing else) to the etree-built tree gives exactly the dom-built tree."""
+    if dom is None or etree is None:
         return "builders-differ"
-    x, y = d
-    if x[0] == "doctype" or y[0] == "doctype":
+    if dom_defects(etree, False, True) == dom:
+        return "dom-attribute-local-name-collision"
+    if dom_defects(etree, True, False) == dom:
         return "dom-doctype-name"
-    if x[0] == "elem" and y[0] == "elem" and x[1:3] == y[1:3] and x[3] != y[3]:
-        nx, ny = [n for _, n, _ in x[3]], [n for _, n, _ in y[3]]
-        allnames = set(nx) | set(ny)
-        missing = set(nx) ^ set(ny)
-        for m in missing:
-            local = m.split(":", 1)[1] if ":" in m else m
-            if any((o != m) and ((o.split(":", 1)[1] if ":" in o else o) == local) for o in allnames):
-                return "dom-attribute-local-name-collision"
+    if dom_defects(etree, True, True) == dom:
+        return "dom-doctype-name"          # both recorded defects in one document, and nothing else
     return "builders-differ"
+
+
+def classify_case(case):
+    """tree-correspondence case (text, container, scripting, namespaceHTMLElements): parse again with both builders"""
+    text, container, scripting, ns = case
+    try:
+        d = trees.merge_text(trees.from_dom(gen.parse_real(text, tb="dom", fragment=container, ns=ns, scripting=scripting)))
+        e = trees.merge_text(trees.from_etree(gen.parse_real(text, tb="etree", fragment=container, ns=ns, full=True,
+                                                              scripting=scripting)))
+    except Exception:
+        return "builders-differ"
+    if container is None:
+        d = ("doc", list(d[1]))
+    else:
+        d, e = ("frag", d[1]), ("frag", e[1])
+    return classify(d, e)
 
 
 def body_of(t):
@@ -118,11 +153,11 @@ def one(ctx, text, frag, ns):
         ff = f
         # minidom has no document-level text; compare documents
         if dd != ff:
-            ctx.fail(classify(text, dd, ff), "dom and etree builders build different trees", {"input": text, "ns": ns,
+            ctx.fail(classify(dd, ff), "dom and etree builders build different trees", {"input": text, "ns": ns,
                      "dom": repr(dd)[:500], "etree": repr(ff)[:500]})
     else:
         if d[1] != e[1]:
-            ctx.fail(classify(text, d, e), "dom and etree builders build different fragments", {"input": text, "fragment": frag,
+            ctx.fail(classify(("frag", d[1]), ("frag", e[1])), "dom and etree builders build different fragments", {"input": text, "fragment": frag,
                      "ns": ns, "dom": repr(d)[:500], "etree": repr(e)[:500]})
     return res
 
@@ -384,7 +419,7 @@ def run(ctx):
         if "etree" in r and r["etree"] != r["dom"] and T.dom_view(r["etree"]) != r["dom"]:
             case = r["case"]
             if isinstance(case[0], str):
-                ctx.fail(classify(case[0], None, None), "dom and etree builders differ (tree correspondence run)",
+                ctx.fail(classify_case(case), "dom and etree builders differ (tree correspondence run)",
                          {"case": T.describe(case), "dom": r["dom"][:400], "etree": r["etree"][:400]})
     hard = ["<table><b>", "<b><div><table><i>x</table></b>", "<table><a>x<td>", "<a><table><a>y</table>z</a>", "<table>x<tr>y<td>z",
             "<b><table><td></b><i></table>X", "<p><b><i><u></p>x", "<select><b><option>x</select>y", "<table><caption><b></caption>x</table>"]
